@@ -47,6 +47,10 @@ def main():
             own = name.split("-")[0]
             hits = {p: v for p, v in res.items() if p.startswith("C") and v[0] != 0}
             print(name, "own:", res.get(own), "others:", {p: v for p, v in hits.items() if p != own})
+    if os.path.exists(path) and len(sys.argv) > 1:
+        cur = json.load(open(path))      # merge with what a concurrent run may have written meanwhile
+        cur.update({n: M[n] for n in names if n in M})
+        M = cur
     json.dump(M, open(path, "w"), indent=1, sort_keys=True)
 
 
